@@ -52,7 +52,13 @@ class World:
         self.cmd("seed %d" % seed)
 
     def _readline(self):
-        deadline = time.time() + self.cmd_timeout
+        # once a hang has been confirmed in this run (crash_violation: a fresh process given the
+        # same script did not finish either) the run is a violation whatever follows; later
+        # scenarios that stall the same way are given a shorter wait instead of the full one
+        tmo = self.cmd_timeout
+        if self.argv[0].endswith("vf_world") and hang_confirmed():
+            tmo = min(tmo, 15)
+        deadline = time.time() + tmo
         while b"\n" not in self.buf:
             left = deadline - time.time()
             if left <= 0:
@@ -350,8 +356,27 @@ class Sim:
         return self.now - self.t0
 
 
+def _hang_dir():
+    d = os.environ.get("VF_HANG_DIR")
+    return d if d and os.path.isdir(d) else None
+
+
+def hang_confirmed():
+    d = _hang_dir()
+    try:
+        return bool(d) and bool(os.listdir(d))
+    except OSError:
+        return False
+
+
 def crash_violation(run, prefix, exc, witness):
     """turn a WorldCrash into a violation on `run`"""
+    if exc.hang and hang_confirmed():
+        # a hang of this run has been confirmed by a replay already: no second confirmation
+        run.violation("%s/hang" % prefix, witness, "harness process did not answer %r within "
+                      "the watchdog (a hang of this run was confirmed by replay before)"
+                      % exc.last_cmd)
+        return
     if exc.hang:
         # The watchdog is wall-clock time and the machine may be loaded: before a hang is
         # reported the same script is given to a fresh process with five times the time.  If
@@ -369,6 +394,12 @@ def crash_violation(run, prefix, exc, witness):
             except subprocess.TimeoutExpired:
                 pass
             except Exception:
+                pass
+        d = _hang_dir()
+        if d:
+            try:
+                open(os.path.join(d, "hang-%d" % os.getpid()), "w").close()
+            except OSError:
                 pass
         sig = "%s/hang" % prefix
         run.violation(sig, witness, "harness process did not answer %r within the watchdog, and "
